@@ -16,10 +16,10 @@ MIN_COUNTERS = {'quick': {'steps_compared': 300}, 'thorough': {'steps_compared':
 CASE_TIMEOUT = 900
 WARMUP = True
 NPROC = 12
-RULE = ('each case = one random history (length 1-12) on a fresh world+orbit of one kind in {CPL, CPL spin-synchronous, CTL, layered Maxwell (io_simple), layered Andrade}, '
+RULE = ('each case = one random history (length 1-12) on a fresh world+orbit of one kind in {CPL, CPL spin-synchronous, CTL, layered Maxwell (io_simple), layered Andrade, dual-body CPL pairs}, obliquity tides on or off, '
         'scalar or array valued (fixed length per history), drawn from 27 operation kinds (orbit.set_state / set_eccentricity / set_orbital_frequency / set_orbital_period / '
         'set_semi_major_axis by instance, name or index; world.set_state with any non-empty subset; individual setters and property assignments; set_fixed_q / set_fixed_dt; '
-        'layer temperature; orbit time); non-trivial = at least one step was applied and compared against the fresh oracle; distinct by history')
+        'layer temperature; orbit time), or one segment (12 consecutive pairs) of an Euler tour that visits every ordered pair of operation classes (quick) / operations (thorough) once per configuration; non-trivial = at least one step was applied and compared against the fresh oracle; distinct by history')
 ASSUMPTIONS = ['derived quantities must agree to 1e-10 relative (same floating-point operations on the same state are expected to agree to rounding)',
                'the canonical sequence of the oracle ends with an orbital-frequency change so that everything is recomputed']
 OPS = ['h_spin', 'h_obl', 'h_spin_obl', 'orb_e', 'orb_P', 'orb_n', 'orb_a', 'orb_eP', 'orb_set_e', 'orb_set_n', 'orb_set_P', 'orb_set_a', 'w_spin', 'w_obl', 'w_e', 'w_P', 'w_n', 'w_spin_obl', 'w_e_obl', 'w_all',
@@ -27,19 +27,69 @@ OPS = ['h_spin', 'h_obl', 'h_spin_obl', 'orb_e', 'orb_P', 'orb_n', 'orb_a', 'orb
 KINDS = ['cpl', 'cpl_sync', 'ctl', 'layered', 'layered_andrade', 'dual_cpl', 'dual_cpl_sync']
 
 
+CLASSES = {'host': ['h_spin', 'h_obl', 'h_spin_obl'], 'e': ['orb_e', 'orb_set_e', 'w_e'], 'n': ['orb_P', 'orb_n', 'orb_a', 'orb_set_n', 'orb_set_P', 'orb_set_a', 'w_P', 'w_n'],
+           'e_n': ['orb_eP'], 'spin': ['w_spin', 'set_spin'], 'obl': ['w_obl', 'set_obl', 'prop_obl'], 'spin_obl': ['w_spin_obl'], 'e_obl': ['w_e_obl'], 'all': ['w_all'],
+           'fix': ['fixq', 'fixdt'], 'temp': ['temp'], 'time': ['time']}
+
+
+def euler_tour(nodes, rng):
+    """a closed walk through the complete digraph with self-loops on `nodes` that uses every ordered pair exactly once (Hierholzer)"""
+    out = {a: [nodes[j] for j in rng.permutation(len(nodes))] for a in nodes}
+    stack, tour = [nodes[0]], []
+    while stack:
+        v = stack[-1]
+        if out[v]:
+            stack.append(out[v].pop())
+        else:
+            tour.append(stack.pop())
+    return tour[::-1]
+
+
+def applicable(op, kind):
+    if op in ('h_spin', 'h_obl', 'h_spin_obl'): return kind.startswith('dual')
+    if op in ('w_spin', 'set_spin', 'w_spin_obl'): return not kind.endswith('sync')
+    if op == 'fixq': return not (kind.startswith('layered') or kind.startswith('ctl'))
+    if op == 'fixdt': return kind.startswith('ctl')
+    if op == 'temp': return kind.startswith('layered')
+    return True
+
+
+def tour_cases(tier, seed):
+    """pairwise coverage of consecutive operations: per configuration one Euler tour over all ordered pairs of operation classes (quick) or of
+    operations (thorough), cut into histories of 12 consecutive pairs"""
+    rng = np.random.default_rng([seed, 13, 999])
+    configs = ([('layered', True), ('layered', False), ('cpl', False), ('ctl', True), ('dual_cpl', False)] if tier == 'quick' else
+               [(k, o) for k in KINDS for o in (True, False)])
+    cases = []
+    for kind, obl_on in configs:
+        if tier == 'quick':
+            classes = [cl for cl, ops in CLASSES.items() if any(applicable(op, kind) for op in ops)]
+            tour = []
+            for cl in euler_tour(classes, rng):
+                ops = [op for op in CLASSES[cl] if applicable(op, kind)]
+                tour.append(ops[int(rng.integers(len(ops)))])
+        else:
+            tour = euler_tour([op for op in OPS if applicable(op, kind)], rng)
+        step = 12
+        for j, a in enumerate(range(0, len(tour) - 1, step)):
+            cases.append({'kind': kind, 'sub': 100000 + len(cases), 'seed': seed, 'arrays': bool(j % 5 == 4), 'obl_on': obl_on, 'ops': tour[a:a + step + 1], 'length': len(tour[a:a + step + 1])})
+    return cases
+
+
 def gen_cases(tier, seed):
-    n = 90 if tier == 'quick' else 2400
-    return [{'kind': KINDS[i % len(KINDS)], 'sub': i, 'seed': seed, 'arrays': bool(i % 4 == 3), 'length': 1 + (i * 7) % 12} for i in range(n)]
+    n = 70 if tier == 'quick' else 2400
+    return tour_cases(tier, seed) + [{'kind': KINDS[i % len(KINDS)], 'sub': i, 'seed': seed, 'arrays': bool(i % 4 == 3), 'length': 1 + (i * 7) % 12,
+             'obl_on': bool((i // len(KINDS)) % 3 != 1)} for i in range(n)]
 
 
-def mk(kind):
+def mk(kind, obl_on=True):
     from TidalPy.structures import build_world, build_from_world
     from TidalPy.structures.orbit import PhysicsOrbit
     star = build_world('55cnc')
     if kind.startswith('dual'):
         # dual-body dissipation: a tidally active, non-synchronous host (not the star) and a tidally active satellite
         base = build_world('earth_simple')
-        tid = lambda q: {'model': 'global_approx', 'fixed_q': q, 'use_ctl': False, 'eccentricity_truncation_lvl': 4, 'max_tidal_order_l': 2, 'obliquity_tides_on': True}
+        tid = lambda q: {'model': 'global_approx', 'fixed_q': q, 'use_ctl': False, 'eccentricity_truncation_lvl': 4, 'max_tidal_order_l': 2, 'obliquity_tides_on': obl_on}
         star = build_from_world(star, new_config={'tides_on': False})
         host = build_from_world(base, new_config={'force_spin_sync': False, 'type': 'simple_tidal', 'mass': 5.972e24, 'slices': 100, 'tides_on': True, 'tides': tid(40.)}, new_name='verif_host')
         w = build_from_world(base, new_config={'force_spin_sync': kind.endswith('sync'), 'type': 'simple_tidal', 'mass': 7.3e22, 'radius': 1.7e6, 'slices': 100, 'tides_on': True, 'tides': tid(125.)}, new_name='verif_sat')
@@ -48,13 +98,17 @@ def mk(kind):
         return star, w, orb
     if kind.startswith('layered'):
         w = build_world('io_simple')
+        cfg = {}
         if kind == 'layered_andrade':
-            cfg = {'layers': {'Mantle': {'rheology': {'complex_compliance': {'model': 'andrade'}}}}}
+            cfg['layers'] = {'Mantle': {'rheology': {'complex_compliance': {'model': 'andrade'}}}}
+        if not obl_on:
+            cfg['tides'] = {'obliquity_tides_on': False}
+        if cfg:
             w = build_from_world(w, new_config=cfg)
     else:
         base = build_world('earth_simple')
         cfg = {'force_spin_sync': kind.endswith('sync'), 'type': 'simple_tidal', 'mass': 5.972e24, 'slices': 100,
-               'tides': {'model': 'global_approx', 'fixed_q': 125.0, 'use_ctl': kind.startswith('ctl'), 'eccentricity_truncation_lvl': 4, 'max_tidal_order_l': 2, 'obliquity_tides_on': True}}
+               'tides': {'model': 'global_approx', 'fixed_q': 125.0, 'use_ctl': kind.startswith('ctl'), 'eccentricity_truncation_lvl': 4, 'max_tidal_order_l': 2, 'obliquity_tides_on': obl_on}}
         w = build_from_world(base, new_config=cfg)
     orb = PhysicsOrbit(star, tidal_host=star, tidal_bodies=w)
     return star, w, orb
@@ -124,7 +178,7 @@ def eval_case(c):
     def val(lo, hi):
         return float(rng.uniform(lo, hi)) if n_arr is None else rng.uniform(lo, hi, n_arr)
 
-    star, w, o = mk(kind)
+    star, w, o = mk(kind, c.get('obl_on', True))
     sync = w.force_spin_sync
     st = {'o': val(0.05, 0.3), 'e': val(0.02, 0.2), 'n': days2rads(val(5., 20.)), 's': days2rads(val(3., 9.)), 'hs': days2rads(val(0.4, 2.)), 'ho': val(0.05, 0.3)}
     layered = kind.startswith('layered')
@@ -151,7 +205,7 @@ def eval_case(c):
         st['s'] = st['n']
 
     def fresh():
-        s2, w2, o2 = mk(kind)
+        s2, w2, o2 = mk(kind, c.get('obl_on', True))
         prime(w2, o2, st)
         return snap(w2, o2, kind)
 
@@ -220,9 +274,15 @@ def eval_case(c):
         return True
 
     tries = 0
+    planned = list(c.get('ops', []))
     while cnt['steps_applied'] < c['length'] and tries < 60:
         tries += 1
-        op = OPS[int(rng.integers(len(OPS)))]
+        if 'ops' in c:
+            if not planned:
+                break
+            op = planned.pop(0)
+        else:
+            op = OPS[int(rng.integers(len(OPS)))]
         try:
             if not apply(op):
                 continue
@@ -250,7 +310,7 @@ def eval_case(c):
         if not layered and not kind.startswith('dual') and n_arr is None and got['H'] is not None:
             from TidalPy.toolbox.quick_tides import quick_tidal_dissipation
             try:
-                kw = dict(rheology='ctl' if kind.startswith('ctl') else 'cpl', eccentricity=st['e'], obliquity=st['o'], orbital_frequency=st['n'], spin_frequency=st['s'],
+                kw = dict(rheology='ctl' if kind.startswith('ctl') else 'cpl', eccentricity=st['e'], obliquity=st['o'] if c.get('obl_on', True) else None, orbital_frequency=st['n'], spin_frequency=st['s'],
                           max_tidal_order_l=2, eccentricity_truncation_lvl=4, fixed_k2=w.tides.fixed_k2, fixed_q=w.tides.fixed_q)
                 if kind.startswith('ctl'):
                     kw['fixed_dt'] = w.tides.fixed_dt
@@ -261,5 +321,5 @@ def eval_case(c):
                     break
             except Exception as ex:
                 pass
-    obs = {'kind': kind, 'arrays': c['arrays'], 'history': hist}
+    obs = {'kind': kind, 'arrays': c['arrays'], 'pairwise_tour': 'ops' in c, 'obliquity_tides_on': c.get('obl_on', True), 'history': hist}
     return {'status': 'violated' if viol else 'held', 'nontrivial': cnt['steps_compared'] > 0 or bool(viol), 'violations': viol, 'obs': obs, 'counters': cnt}
